@@ -199,7 +199,7 @@ def gen_spec(rng, backend=None, max_n=3):
         opsl.append({"op": "MeasureHeterodyne", "select": sel, "m": [rng.randrange(n)], "dg": False})
         if rng.random() < 0.6:
             opsl.append(gen_op(rng, n, backend))
-    if backend in ("gaussian", "fock") and rng.random() < 0.2:
+    if backend == "fock" and rng.random() < 0.2:  # (the gaussian backend's hafnian sampler amplifies rounding noise: same distribution, different draws)
         k = rng.randint(1, n)
         opsl.append({"op": "MeasureFock", "m": sorted(rng.sample(range(n), k)), "dg": False})
     spec = {"backend": backend, "n": n, "ops": opsl}
@@ -378,6 +378,7 @@ def observables(spec, h, which=None):
             # dimensionless classification queries, each on a fresh copy of the state object
             put("is_coherent", lambda: [float(copy.deepcopy(st).is_coherent(k)) for k in range(n)])
             put("is_squeezed", lambda: [float(copy.deepcopy(st).is_squeezed(k)) for k in range(n)])
+            # (r, phi) as r e^{i phi}; for an unsqueezed mode arccosh(1 +- ulp) is 0, 1e-8 or nan and phi is 0/0
             put("squeezing", lambda: [x for k in range(n) for x in copy.deepcopy(st).squeezing([k])[0]])
             # query histories on ONE object: a query must not change what later queries return
             for qn in ("is_coherent", "is_squeezed", "squeezing"):
@@ -419,6 +420,31 @@ def observables(spec, h, which=None):
 PURE_DEPENDENT = {"reduced_dm", "fock_prob", "all_fock_probs"}
 
 
+def squeezing_differs(a, b):
+    """(r, phi) pairs.  Rounding-level artefacts of the formulas are not differences: for an unsqueezed mode
+    arccosh(1 +- ulp) is 0, 1e-8 or nan and phi is 0/0; at |phi| = pi/2 arcsin(1 + ulp) is nan."""
+    if isinstance(a, str) or isinstance(b, str) or a.shape != b.shape:
+        return True
+    for i in range(0, len(a), 2):
+        r1, p1, r2, p2 = a[i].real, a[i + 1].real, b[i].real, b[i + 1].real
+        z1 = (not np.isfinite(r1)) or abs(r1) < 1e-6
+        z2 = (not np.isfinite(r2)) or abs(r2) < 1e-6
+        if z1 or z2:
+            if z1 != z2:
+                return True
+            continue
+        if abs(r1 - r2) > 1e-6:
+            return True
+        if np.isfinite(p1) and np.isfinite(p2):
+            if abs(np.exp(1j * p1) - np.exp(1j * p2)) > 1e-5:
+                return True
+        else:
+            for p_ in (p1, p2):
+                if np.isfinite(p_) and abs(abs(p_) - np.pi / 2) > 1e-5:
+                    return True
+    return False
+
+
 def differs(a, b, tol=1e-7):
     if isinstance(a, str) or isinstance(b, str):
         return a != b if (isinstance(a, str) and isinstance(b, str)) else True
@@ -442,6 +468,10 @@ def compare_pair(spec, h1, h2, which=None):
     o2 = observables(spec, h2, which)
     bad = []
     for k in sorted(o1):
+        if k == "squeezing" and k in o2:
+            if squeezing_differs(o1[k], o2[k]):
+                bad.append((k, _short(o1[k]), _short(o2[k])))
+            continue
         if k not in o2 or differs(o1[k], o2[k]):
             bad.append((k, _short(o1[k]), _short(o2.get(k, "missing"))))
     if spec["backend"] == "gaussian" and any(k == "is_pure" for k, _, _ in bad):
